@@ -94,3 +94,8 @@ Theorem C02_roundtrip_refuted_stale_item :
             (snd (build_cfg leaf ldefault l_callable w0 f50_fs)) false [] f50_fs) = OErr (EValidation (sa "items[0].need")).
 Proof. exact (proj2 roundtrip_refuted_stale_item). Qed.
 Print Assumptions C02_roundtrip_refuted_stale_item.
+
+(* the Boolean verdict the correspondence stream `roundtrip` compares with the implementation is implied by `same_values` *)
+Theorem C02_same_values_verdict : forall F fs ca cb, same_values F fs ca cb -> same_valuesb F fs ca cb = true.
+Proof. exact same_values_verdict. Qed.
+Print Assumptions C02_same_values_verdict.
